@@ -366,11 +366,25 @@ fn check_history(st: &mut St, hist: &[Op], model: &Model) {
 }
 
 fn check_history_in(st: &mut St, hist: &[Op], model: &Model, budget_exhausted: bool, unwinding: bool) {
+    // a panic of the code under test anywhere in a history (also while the history's objects are
+    // dropped at its end) is a verdict, not the end of the search
+    let r = std::panic::catch_unwind(std::panic::AssertUnwindSafe(|| check_history_in_(st, hist, model, budget_exhausted, unwinding)));
+    if r.is_err() {
+        let env = if budget_exhausted { ":tokio-budget-exhausted" } else if unwinding { ":drops-by-unwinding" } else { "" };
+        st.v.add(format!("seq:real-code-panicked{env}"), format!("the history {hist:?} made the code under test panic"), json!({"history": hist.iter().map(|o| format!("{o:?}")).collect::<Vec<_>>()}));
+    }
+}
+
+fn check_history_in_(st: &mut St, hist: &[Op], model: &Model, budget_exhausted: bool, unwinding: bool) {
     let mut w = World::new(unwinding);
     let mut seen: Vec<(u64, Option<u64>, Option<u64>)> = Vec::new();
     let mut run = |w: &mut World, st: &mut St| {
         for o in hist {
-            w.apply(*o);
+            // a panic of the code under test inside a history is a verdict, not the end of the search
+            if std::panic::catch_unwind(std::panic::AssertUnwindSafe(|| w.apply(*o))).is_err() {
+                w.problems.push(format!("real-code-panicked-at:{o:?}"));
+                break;
+            }
             st.transitions += 1;
             for e in w.sink.drain() {
                 let t = to_test_entry(&e);
